@@ -1,6 +1,7 @@
 import Pike.Props.C04
 import Pike.Props.C09
 import Pike.Facts
+import Pike.Spec.Skeleton
 /-
 C08 — persisted entries survive eviction, restart and kill: never stale, never corrupt.
 Assumption (stated, exercised by the `crash` suite, not proved): the store is an atomic map —
@@ -10,6 +11,25 @@ a `Set` is either entirely there or not, and it never returns bytes that were no
 namespace Pike
 namespace C08
 open Sys Entry
+
+/-- Obligation on the regenerated statement skeletons of the three store back ends (store/redis.go, mongo.go,
+badger.go): Get, Set and Delete of each address a record by THE SAME function of the key (redis: prefix + key in all
+three; mongo: `Key = string(key)` in all three; badger: the key itself, Delete removing that one key), a miss is reported
+as `ErrNotFound`, and a value is copied out before the transaction ends.  This is what lets `StoreMap` / `Sys.store`
+treat a store as one partial map; the `store` suite checks it against real badger stores, redis and mongo cannot be
+run in the sandbox, so for them this obligation is the tie. -/
+theorem store_backends_transcribed :
+    Facts.skel_redisStore_getKey = Spec.Skeleton.redisStore_getKey
+    ∧ Facts.skel_redisStore_Get = Spec.Skeleton.redisStore_Get
+    ∧ Facts.skel_redisStore_Set = Spec.Skeleton.redisStore_Set
+    ∧ Facts.skel_redisStore_Delete = Spec.Skeleton.redisStore_Delete
+    ∧ Facts.skel_mongoStore_Get = Spec.Skeleton.mongoStore_Get
+    ∧ Facts.skel_mongoStore_Set = Spec.Skeleton.mongoStore_Set
+    ∧ Facts.skel_mongoStore_Delete = Spec.Skeleton.mongoStore_Delete
+    ∧ Facts.skel_badgerStore_Get = Spec.Skeleton.badgerStore_Get
+    ∧ Facts.skel_badgerStore_Set = Spec.Skeleton.badgerStore_Set
+    ∧ Facts.skel_badgerStore_Delete = Spec.Skeleton.badgerStore_Delete := by
+  refine ⟨?_, ?_, ?_, ?_, ?_, ?_, ?_, ?_, ?_, ?_⟩ <;> rfl
 
 /-- Obligation on the extracted facts: pike's own code uses no `sync.Pool` — the bytes of a record handed to the store are not a view of a buffer another save reuses (the models treat them as immutable values). -/
 theorem facts_no_pooled_buffers : Facts.syncPoolSites = [] := by decide
